@@ -178,6 +178,35 @@ pub fn determinism(ctx: &Ctx, rep: &mut Report) {
     let mut args: Vec<String> = s512.iter().map(|s| format!("5{}", hex(s))).collect();
     args.extend(s1024.iter().map(|s| format!("A{}", hex(s))));
     let mut kids = vec![];
+    // child 4 is PAUSED (SIGSTOP ... SIGCONT) for more than a minute in the middle of its key
+    // generations: monotonic time jumps inside whatever it was doing (a debugger, a frozen
+    // container, a suspended laptop); keys must not depend on how long anything took
+    let pause_secs = ctx.sz(70, 150) as u64;
+    let paused: Option<(std::process::Child, std::path::PathBuf, std::thread::JoinHandle<bool>)> = {
+        let out = dir.join("child-paused.json");
+        let mut cmd = std::process::Command::new(&exe);
+        // Falcon-1024 seeds only, several times over: about ten seconds of key generation
+        let mut pargs: Vec<String> = vec![];
+        for _ in 0..3 {
+            pargs.extend(s1024.iter().map(|s| format!("A{}", hex(s))));
+        }
+        cmd.args(["run", "C15", "child", "--seed", "1", "--out", out.to_str().unwrap(), "--"]).args(&pargs);
+        cmd.env("VF_THREADS", "1");
+        match cmd.spawn() {
+            Ok(ch) => {
+                let pid = ch.id().to_string();
+                let h = std::thread::spawn(move || {
+                    std::thread::sleep(std::time::Duration::from_millis(1500));
+                    let stopped = std::process::Command::new("kill").args(["-STOP", &pid]).status().map(|s| s.success()).unwrap_or(false);
+                    std::thread::sleep(std::time::Duration::from_secs(pause_secs));
+                    let _ = std::process::Command::new("kill").args(["-CONT", &pid]).status();
+                    stopped
+                });
+                Some((ch, out, h))
+            }
+            Err(_) => None,
+        }
+    };
     // children 2 and 3 additionally run with a restricted CPU set (one CPU; three CPUs): the
     // number of usable processors is part of the environment a key must not depend on
     let taskset = ["/usr/bin/taskset", "/bin/taskset"].iter().find(|p| std::path::Path::new(p).exists()).cloned();
@@ -484,6 +513,27 @@ pub fn determinism(ctx: &Ctx, rep: &mut Report) {
             _ => rep.inconclusive(format!("child process {} produced no output", c)),
         }
     }
+    if let Some((mut ch, out, h)) = paused {
+        let stopped = h.join().unwrap_or(false);
+        let st = ch.wait();
+        let text = std::fs::read_to_string(&out).unwrap_or_default();
+        let v: Value = serde_json::from_str(&text).unwrap_or(Value::Null);
+        match v["samples"].as_array() {
+            Some(a) if st.map(|s| s.success()).unwrap_or(false) && stopped => {
+                for e in a {
+                    let mut s = [0u8; 32];
+                    s.copy_from_slice(&unhex(e["seed"].as_str().unwrap()));
+                    let f: Vec<u64> = e["fp"].as_array().unwrap().iter().map(|x| x.as_str().unwrap().parse().unwrap()).collect();
+                    rep.evaluations += 1;
+                    if f.len() == 4 {
+                        record(&mut table.lock().unwrap(), "falcon1024", s, &format!("process paused for {} s in the middle of its key generations", pause_secs), (f[0], f[1], f[2] as usize, f[3] as usize));
+                    }
+                }
+                rep.count("paused_child_processes", 1);
+            }
+            _ => rep.inconclusive("the paused child process produced no output (or could not be stopped)".into()),
+        }
+    }
     let _ = std::fs::remove_dir_all(&dir);
     // the history check: all executions of one seed agree
     let t = table.lock().unwrap();
@@ -507,6 +557,7 @@ pub fn determinism(ctx: &Ctx, rep: &mut Report) {
         rep.sample(json!({"variant": var, "seed": hex(seed), "executions": runs.iter().map(|r| r.0.clone()).collect::<Vec<_>>(), "all_identical": runs.iter().all(|r| r.1 == runs[0].1)}));
     }
     rep.require("child_processes", 2);
+    rep.require("paused_child_processes", 1);
     rep.require("seeds_with_history", 5);
 }
 
